@@ -121,7 +121,19 @@ PROBES = ["start: mov #start, r0\n.word late, 'x\nlate = . - start\n.ascii /prob
           # per-assembly counters (how often a file was compiled, scope and file numbering) must start afresh
           ".once\nx: .word x, 5\n1$: br 1$\n", "a: .word 1$\n1$: .word a\nb: .word 1$\n1$: nop\n",
           # every kind of report that collects positions while it is built
-          "nop\nnop\nnop\np1 = p2\np2 = p1 + 2\n.word p1\n", "self = self + 1\n", "d2: nop\nd2: nop\n", ".blkb m\nm = f - .\nf:\n"]
+          "nop\nnop\nnop\np1 = p2\np2 = p1 + 2\n.word p1\n", "self = self + 1\n", "d2: nop\nd2: nop\n", ".blkb m\nm = f - .\nf:\n",
+          # several statements of unknown size, each with its own fault, all behind one reference: which of them is looked at
+          # first must not depend on anything outside the program (names the engine gives its own objects, for one)
+          "st: .word en\n.blkb gap\n.blkb size\nsize = count\ncount = size\nen:\n",
+          "st: .word en\n.blkb size\n.blkb gap\n.blkw 5 / zz\nsize = count\ncount = size\nzz = 0\nen:\n",
+          "a: .word e1, e2\n.blkb u1\ne1:\n.blkb u2\n.blkb c1\nc1 = c2\nc2 = c1\ne2:\n",
+          ".word z\n.repeat q1 { nop }\n.repeat q2 { nop }\n.blkb q3\nq1 = q2\nq2 = q1\nz:\n"]
+
+
+# a family in which the number of objects the engine creates before the two faulty statements varies (so do the
+# names and ordinals it gives them); the reports must not
+PROBES += ["entry: mov #table, r1\n" + "mov #L, r2\n" * k + "halt\ntable: .word L\n.blkb gap\n.blkb size\nL: .word 0\nsize = count * 2\ncount = size / 2\n" for k in range(0, 12)]
+PROBES += ["entry: mov #table, r1\n" + "mov #L, r2\n" * k + "table: .word L\n.blkb size\n.blkb gap\n.blkw gap2\nL: .word 0\nsize = count + 1\ncount = size - 1\n" for k in (0, 3, 7)]
 
 
 def run_one(src):
@@ -297,7 +309,7 @@ def run(ctx):
     # one-time initialisation cannot be reset by re-importing the package, only a new process is fresh)
     import re as _re
     first_probes = [".word 1 << 20000.\n", "big = 1 << 15000.\n.word big\n", ".byte 7 * (1 << 16000.)\n", "x = %s\n.word x\n" % ("7" * 4400),
-                    ".word 19\n", ".byte\n", "clr @r1\n", "mov #UNDEF, r0\n", ".ascii \"a€b\"\n", ".rad50 /a!b/\n", "br .+1000\n"] + PROBES[:4]
+                    ".word 19\n", ".byte\n", "clr @r1\n", "mov #UNDEF, r0\n", ".ascii \"a€b\"\n", ".rad50 /a!b/\n", "br .+1000\n"] + PROBES[:4] + PROBES[-4:]
     env2 = {k: v for k, v in os.environ.items() if k != "PDPY11_VERIF"}
     env2.update(PYTHONPATH=REPO, PYTHONDONTWRITEBYTECODE="1", PYTHONHASHSEED="0")
 
@@ -307,7 +319,7 @@ def run(ctx):
     d2 = impl.scratch_dir()
     try:
         pool_hist = POOL_VALID + POOL_INVALID
-        for pr in (first_probes if ctx.thorough else first_probes[:3] + rng.sample(first_probes[3:], 4)):
+        for pr in (first_probes if ctx.thorough else first_probes[:3] + first_probes[-4:] + rng.sample(first_probes[3:-4], 3)):
             with open(os.path.join(d2, "probe.mac"), "w", encoding="utf-8") as f:
                 f.write(pr)
             # (1) the real command line in a new interpreter: nothing was assembled, nothing was imported before
